@@ -259,8 +259,80 @@ pub open spec fn link_matches(l: Option<Box<BufferLink>>, tag: Seq<char>) -> boo
 pub open spec fn link_prev(l: Option<Box<BufferLink>>) -> Option<Box<BufferLink>> { match l { Some(b) => b.previous, None => None } }
 pub open spec fn link_buf(l: Option<Box<BufferLink>>) -> Seq<char> { match l { Some(b) => b.buffer@, None => Seq::empty() } }
 
+// ---- foreign to this unit: html::Tokenizer. The contracts below are the postconditions PROVED in unit `tok` (contiguity, progress,
+// error => nothing unread, tag tokens carry a name), restated over abstract observers; assumed here (trusted, listed)
+//@@ item src/html/mod.rs :: enum TokenType
+//@| opt keepattrs
+//@| attr #[derive(Structural)]
+#[verifier::external_body] pub struct Tokenizer { x: u8 }
+pub open spec fn is_tag(t: TokenType) -> bool { t == TokenType::StartTagToken || t == TokenType::EndTagToken || t == TokenType::SelfClosingTagToken }
+impl Tokenizer {
+    pub uninterp spec fn reader(&self) -> Seq<u8>;
+    pub uninterp spec fn rs(&self) -> int;
+    pub uninterp spec fn re(&self) -> int;
+    pub uninterp spec fn errored(&self) -> bool;
+    pub uninterp spec fn tok(&self) -> TokenType;
+    pub open spec fn wf(&self) -> bool { 0 <= self.rs() <= self.re() <= self.reader().len() && (self.errored() ==> self.re() == self.reader().len()) }
+    pub open spec fn raw_bytes(&self) -> Seq<u8> { self.reader().subrange(self.rs(), self.re()) }
+    #[verifier::external_body]
+    pub fn new(reader: Vec<u8>) -> (r: Tokenizer) ensures r.wf(), r.reader() == reader@, r.rs() == 0, r.re() == 0, !r.errored() { unimplemented!() }
+    #[verifier::external_body]
+    pub fn next(&mut self) -> (r: std::result::Result<TokenType, HtmlParseError>)
+        requires old(self).wf(),
+        ensures final(self).wf(), final(self).reader() == old(self).reader(), final(self).rs() == old(self).re(),
+            r matches Ok(t) ==> final(self).tok() == t && (t != TokenType::ErrorToken ==> final(self).rs() < final(self).re()) && (t == TokenType::ErrorToken ==> final(self).errored()),
+    { unimplemented!() }
+    #[verifier::external_body]
+    pub fn raw(&self) -> (r: Vec<u8>) requires self.wf() ensures r@ == self.raw_bytes() { unimplemented!() }
+    #[verifier::external_body]
+    pub fn raw_as_string(&self) -> (r: std::result::Result<String, HtmlParseError>) requires self.wf() ensures r matches Ok(s) ==> vstd::utf8::encode_utf8(s@) == self.raw_bytes() { unimplemented!() }
+    #[verifier::external_body]
+    pub fn buffered(&self) -> (r: Vec<u8>) requires self.wf() ensures r@ == self.reader().subrange(self.re(), self.reader().len() as int) { unimplemented!() }
+    #[verifier::external_body]
+    pub fn tag_name(&mut self) -> (r: std::result::Result<(Option<String>, bool), HtmlParseError>)
+        requires old(self).wf(),
+        ensures final(self).wf(), final(self).reader() == old(self).reader(), final(self).rs() == old(self).rs(), final(self).re() == old(self).re(),
+            final(self).errored() == old(self).errored(), final(self).tok() == old(self).tok(),
+            r matches Ok(p) ==> (is_tag(old(self).tok()) ==> p.0.is_some()),
+    { unimplemented!() }
+}
+// R8 outlined expression: membership in the lazy_static VOID_ELEMENTS set (uninterpreted predicate of the tag name)
+pub uninterp spec fn spec_is_void(tag: Seq<char>) -> bool;
+#[verifier::external_body]
+pub fn outl_is_void(tag: &str) -> (r: bool) ensures r == spec_is_void(tag@) { /* verbatim: VOID_ELEMENTS.contains(tag_name_str.as_str()) */ unimplemented!() }
+pub assume_specification<P: std::str::pattern::Pattern> [str::contains] (s: &str, p: P) -> bool;
+
 impl HtmlFilterBodyAction {
     pub open spec fn wf(&self) -> bool { self.visitor.wf() }
+
+    // Driver loop. Contract (what is decided here):
+    //  (B) on the end-of-chunk exits the carried-over tail is EXACTLY the not-yet-routed suffix of (old tail ++ input): nothing is lost at
+    //      the chunk boundary;
+    //  (A) stream-order discipline: text is emitted only while no element is being buffered (ghost assertions at every emission);
+    //  (C) every unwrap is safe and every loop terminates (tokenizer progress).
+    // NOT decided here: that the emitted/buffered text equals the routed tokens with only the visitor's edits applied.
+    //@@ strip-path html::
+    //@@ fn src/filter/html_filter_body.rs :: impl HtmlFilterBodyAction / fn filter -> r
+    //@| requires old(self).wf(),
+    //@| ensures final(self).wf(),
+    //@|     r matches Ok(out) ==> exists|k: int| 0 <= k <= (old(self).last_buffer@ + input@).len() && final(self).last_buffer@ == (old(self).last_buffer@ + input@).subrange(k, (old(self).last_buffer@ + input@).len() as int),
+    //@| outline `VOID_ELEMENTS.contains(tag_name_str.as_str())` => `outl_is_void(tag_name_str.as_str())`
+    //@| entry broadcast use axiom_iter_seq_vec;
+    //@| before `let mut tokenizer = html::Tokenizer::new(data);`: let ghost d = data@; proof { assert(d == old(self).last_buffer@ + input@); }
+    //@| loop 0: invariant_except_break tokenizer.wf(), tokenizer.reader() == d, self.wf(), d == old(self).last_buffer@ + input@,
+    //@|     ensures self.wf(), exists|k: int| 0 <= k <= d.len() && self.last_buffer@ == d.subrange(k, d.len() as int), d == old(self).last_buffer@ + input@,
+    //@|     decreases d.len() - tokenizer.re(),
+    //@| loop 1: invariant tokenizer.wf(), tokenizer.reader() == d, self.wf(), d == old(self).last_buffer@ + input@,
+    //@|         token_type == tokenizer.tok(), tokenizer.re() > re0,
+    //@|         vstd::utf8::encode_utf8(token_data@) == tokenizer.raw_bytes(),
+    //@|     decreases d.len() - tokenizer.re(),
+    //@| loophead 0: let ghost re0 = tokenizer.re(); broadcast use axiom_iter_seq_vec;
+    //@| loophead 1: broadcast use axiom_iter_seq_vec;
+    //@| after `self.last_buffer.extend(tokenizer.buffered());`#0: proof { assert(self.last_buffer@ =~= d.subrange(tokenizer.rs(), d.len() as int)); }
+    //@| before `token_type = tokenizer.next()?;`#1: let ghost ts = tokenizer.rs();
+    //@| after `self.last_buffer.extend(tokenizer.buffered());`#1: proof { assert(self.last_buffer@ =~= d.subrange(ts, d.len() as int)); }
+    //@| before `to_return.push_str(token_data.as_str());`#0: proof { assert(self.current_buffer.is_none()); }
+    //@| before `to_return.push_str(token_data.as_str());`#1: proof { assert(self.current_buffer.is_none()); }
 
     //@@ fn src/filter/html_filter_body.rs :: impl HtmlFilterBodyAction / fn new -> r
     //@| requires visitor.wf(),
